@@ -206,6 +206,33 @@ CHECKS.append(
              "composition premise (non-autosomal bins <= wing/2 per kind of file, ~2.5%). Inference claimed only with >= 40 chrX bins, 3x autosomal bins, noise <= 1/4. Estimator "
              "clauses on references <= 64 bins. P-layer accepts either skip_low reading and any sample order (changes there show as MODEL-DRIFT); rmask denominator either "
              "unambiguous bases or all characters. No PAR, no do_cluster."})
+CHECKS.append(
+    {"id": "C08", "level": "model_checking",
+     "technique": "TLA+ spec (Text.tla, Formats.tla) + TLC exhaustive small scope with specification-laid-out fixtures replayed into skgenome.tabio/cnvlib + TLC trace validation of tokenised files, read tables and byte identifiers",
+     "design_ref": "DESIGN.md section 8 C08, 13",
+     "text": "Formats.tla states per format the tokenised line layout (1-based formats carry start+1), the table each reader must return (same 0-based half-open coordinates, "
+             "columns kept, defaults), the natural chromosome order (Text.tla, sorter_chrom exactly) and equality to 6 significant digits on decimal digit strings. TLC "
+             "enumerates every table of <=2 rows over 3 names x coordinates 0..2 in every order for 83 (operation, layout, reader) cases, checks the modelled "
+             "writers/readers/sniffer against the property, and every state is replayed into the real code: writers are judged on the tokenised file, readers on fixtures laid "
+             "out by the specification, read_auto against read(fmt), round trips (incl. export seg -> import-seg) on the table and on byte identity of the second and third "
+             "write; seeded random tables per the quantifier are judged the same way.",
+     "note": "Trusted: TLC, file tokenisation and text<->codes, float<->shortest repr digits, 30-bit blake2b byte ids, DataFrame construction. Not claimed: %.6g at an exact "
+             "7th-digit tie (either rounding), Picard normalized_coverage, end of vcf-simple/-sites records without INFO/END. Premises: names/labels pandas would parse as numbers "
+             "or NA, subnormals, -0.0 in an otherwise whole-number column, zero-width VCF records, auto-detection with dotted names."})
+CHECKS.append(
+    {"id": "C17", "level": "model_checking",
+     "technique": "TLA+ spec (Segmetrics.tla on Stats.tla/Num.tla + PhiTable.tla bracketing table) + TLC exhaustive small scopes replayed into cnvlib.segmetrics/bintest + TLC trace validation of seeded random runs",
+     "design_ref": "DESIGN.md section 8 C17, 13",
+     "text": "TLC enumerates all short log2 vectors x every statistic, all small sorted bin x segment tables (selection by the code's searchsorted/mask slices vs the overlap "
+             "definition; bins tested by bintest), and all p-vectors of length <=4 over {0,1/4,1/2,1}, checks the modelled code against the definitions, and every state is "
+             "replayed into the real code; random bin tables/segmentations (0..301 bins per segment, straddling/nested bins, every subset of statistics, alpha, bootstraps, "
+             "smoothed, skip_low) and rational p-vectors of length 1..200 are judged by TLC the same way: each statistic vs its definition on exactly the overlapping bins, PI "
+             "percentiles bracketing the median, CI order/range/bit-reproducibility after RNG perturbation, segment columns unchanged; bintest p inside the Phi bracket of the "
+             "exact z, BH exact, hit set = {adjusted p < alpha} decided exactly via float ranks incl. alpha = a logged adjusted p.",
+     "note": "Not claimed: value of p_ttest and mode, distributional correctness of the bootstrap, normal tail beyond table resolution (0.01 in z); CI range only for the plain "
+             "(unsmoothed) bootstrap. Trusted: TLC, PhiTable.tla (generated once with Python decimal, cross-checked vs libm/continued fraction/A&S), 12-digit and rank/bit "
+             "encodings in c17.py, wrapping bintest.p_adjust_bh to observe unadjusted p. Premise: sorted positive-width tables with a weight column, non-overlapping segments, "
+             "z defined (not weight 1 with residual 0). Conventions taken from the code: stdev ddof 0, SEM ddof 1, MAD x 1.4826."})
 
 _ALL = [f"C{n:02d}" for n in range(1, 21)]
 _claimed = {c["id"] for c in CHECKS}
